@@ -159,7 +159,7 @@ func (g *Gen) callCommon(in *ssa.Call, common *ssa.CallCommon, args []*SV, st *S
 	if key != "" {
 		g.lockOrder(key, common, st, reach, pos)
 		if in != nil {
-			g.noteCallEpochs(callee, st)
+			g.noteCallEpochs(callee, common, st)
 			g.lockOrderCallee(callee, st, reach, pos)
 			// functions handed to the callee run (as far as this check is concerned) during the call
 			for _, a := range common.Args {
@@ -612,17 +612,22 @@ func lockFromCall(v ssa.Value, depth int) string {
 
 // noteCallEpochs records, for every lock of the order, how many acquisitions had happened when the
 // callee was last called: lockepochAt("lock", "Callee") in assertions.
-func (g *Gen) noteCallEpochs(callee *ssa.Function, st *State) {
+func (g *Gen) noteCallEpochs(callee *ssa.Function, common *ssa.CallCommon, st *State) {
 	// "opt: count-calls=A,B": callcount("A") in assertions is the number of calls of A so far (counted
 	// from the loop head inside a loop: the counters are not havoc'd there, so inside an iteration the
-	// value is a lower bound of the real count)
-	if cc := g.con.Opts["count-calls"]; cc != "" && callee != nil {
-		cname := callee.Name()
-		if i := strings.Index(cname, "["); i > 0 {
-			cname = cname[:i] // instance of a generic function: counted under the generic name
+	// value is a lower bound of the real count). Interface method calls are counted under the method name.
+	if cc := g.con.Opts["count-calls"]; cc != "" {
+		cname := ""
+		if callee != nil {
+			cname = callee.Name()
+			if i := strings.Index(cname, "["); i > 0 {
+				cname = cname[:i] // instance of a generic function: counted under the generic name
+			}
+		} else if common != nil && common.IsInvoke() {
+			cname = common.Method.Name()
 		}
 		for _, n := range strings.Split(cc, ",") {
-			if strings.TrimSpace(n) == cname {
+			if cname != "" && strings.TrimSpace(n) == cname {
 				k := "lockn.calls." + cname
 				st.ghost[k] = "(+ " + g.ghostGet(st, k) + " 1)"
 			}
